@@ -39,7 +39,8 @@ def fresh(cfg):
     dtype = lc.DT[cfg["dtype"]]
     t0, tf = cfg["span"]
     y0 = np.array([np.sin(t0), np.cos(t0)], dtype=dtype)
-    a = de.OdeSystem(f_osc, y0=y0, t=(dtype(t0), dtype(tf)), dt=dtype(cfg["dt0"]), rtol=dtype(cfg["tol"]), atol=dtype(cfg["tol"]), dense_output=True)
+    tf_cfg = (2 * t0 - tf) if cfg.get("against") else tf        # 'against': configured with the mirrored span, every integrate call names its target
+    a = de.OdeSystem(f_osc, y0=y0, t=(dtype(t0), dtype(tf_cfg)), dt=dtype(cfg["dt0"]), rtol=dtype(cfg["tol"]), atol=dtype(cfg["tol"]), dense_output=True)
     a.method = method_of(cfg["method"])
     return a, y0, dtype
 
@@ -74,7 +75,7 @@ def apply_op(a, cfg, op, dtype):
     obs = dict(op=list(op), raised=None, i0=len(a) - 1)
     try:
         if op[0] == "int":
-            a.integrate(callback=b)
+            a.integrate(dtype(tf), callback=b)
         elif op[0] == "intT":
             tgt = t0 + op[1] * (tf - t0)
             if (tgt - float(a.t[-1])) * (tf - t0) <= 0:
@@ -83,7 +84,7 @@ def apply_op(a, cfg, op, dtype):
             a.integrate(dtype(tgt), callback=b)
         elif op[0] == "ev":
             ev, _ = make_event(cfg)
-            a.integrate(events=[ev], callback=b)
+            a.integrate(dtype(tf), events=[ev], callback=b)
         elif op[0] == "fault":
             st = dict(n=0)
 
@@ -91,7 +92,7 @@ def apply_op(a, cfg, op, dtype):
                 st["n"] += 1
                 if st["n"] == op[1]:
                     raise Boom()
-            a.integrate(callback=[cb, b])
+            a.integrate(dtype(tf), callback=[cb, b])
     except de.exception_types.FailedIntegration as e:
         obs["raised"] = "budget" if driver.budget_hit(e) else ("boom" if isinstance(e.__cause__, Boom) else repr(e.__cause__)[:160])
     obs["i1"] = len(a) - 1
@@ -175,6 +176,8 @@ def configs(ctx):
                             continue
                     out.append(dict(method=m, span=list(sp), dt0=dt0, dtype=dn, tol=tol))
                     out.append(dict(method=m, span=list(sp), dt0=dt0, dtype=dn, tol=tol, observe=True))
+                    if m in ("RK4Solver", "RK45CKSolver", "ABAs5o6HSolver", "BackwardEuler"):
+                        out.append(dict(method=m, span=list(sp), dt0=dt0, dtype=dn, tol=tol, observe=True, against=True))
     return out
 
 
